@@ -796,3 +796,13 @@ impl<Ctx: OptCtx> Package<Ctx> {
         self.module.verif_c04_function_table()
     }
 }
+
+
+#[cfg(feature = "verif-hooks")]
+impl<Ctx: OptCtx> LoweredToLir<'_, Ctx> {
+    /// Verification hook (C05): which instruction of every lowered item
+    /// defines, reads through, writes through or hands on which variable.
+    pub fn verif_c05_mem_ops(&self) -> Vec<crate::verif_hooks::c05::MemFn> {
+        crate::verif_hooks::c05::mem_fns(&self.ir)
+    }
+}
